@@ -24,6 +24,7 @@ func init() {
 		QuickRuns: 10000, ThorRuns: 200000, QuickCap: 60 * time.Second, ThorCap: 12 * time.Minute,
 		Rule: "a run starts a real sidecar (push or file mode, self-monitoring on/off) and applies 2-6 operations in any order - a new configuration composed from a catalogue (global, rule_files, alerting with auth, 1-4 jobs with every auth kind / limits / params / honor flags / relabel and metric-relabel programs / static, file, dns, kubernetes, http, consul SD, remote write/read with basic-auth, bearer token, authorization, oauth2, sigv4; every secret a unique token; drawn YAML style) or a new assignment (jobs without targets, targets of a non-existent job, both states, odd label names, params) - and after each one loads the generated file with config.Load and compares it field-wise with the latest configuration x latest assignment; a case is (jobs, remote-write entries, alerting?, jobs with targets, self-monitor, kind of last operation)",
 		Real: realNode, Stub: stubNode,
+		SchedLabels: []string{"op", "scrape_outcome", "fail_kind", "fail_offset", "update_mode", "prom_reload_fails", "overlap_flip", "kind", "break_offset", "timeout_offset", "chunking", "short_writes", "chunk", "cut_point", "child_cut_point", "config_change", "op_is_config"},
 		Assume: []string{"comparison is on structs loaded by the vendored Prometheus library (config.Load) for both the original and the generated text"},
 	})
 	core.Register(&core.Spec{
@@ -40,6 +41,7 @@ func init() {
 		QuickRuns: 3000, ThorRuns: 150000, QuickCap: 60 * time.Second, ThorCap: 12 * time.Minute,
 		Rule: "a run performs 1-6 successful scrapes through the real proxy with a drawn payload class (generated samples, empty, one line without newline, comment/blank/HELP/TYPE lines, lines the statistics parser rejects, CRLF, one line of up to 262000 bytes, 1-6 MiB), identity or gzip, drawn read-chunk pattern on the target side (1 byte ... 1 MiB) and drawn short-write pattern on the Prometheus side (a ResponseWriter accepting 1..n bytes per call), or through a real net/http server+client over net.Pipe; assigned and unassigned hashes; a case is (payload class) x (assigned?) x gzip x (writer | net/http)",
 		Real: append([]string{"net/http server and client over net.Pipe (a quarter of the scrapes)"}, realNode...), Stub: stubNode,
+		SchedLabels: []string{"op", "scrape_outcome", "fail_kind", "fail_offset", "update_mode", "prom_reload_fails", "overlap_flip", "kind", "break_offset", "timeout_offset", "chunking", "short_writes", "chunk", "cut_point", "child_cut_point", "config_change", "op_is_config"},
 		Assume: []string{"lines stay below the VictoriaMetrics stream parser's 256 KiB line limit, as the statement requires"},
 	})
 	core.Register(&core.Spec{
@@ -47,6 +49,7 @@ func init() {
 		QuickRuns: 8000, ThorRuns: 150000, QuickCap: 60 * time.Second, ThorCap: 12 * time.Minute,
 		Rule: "a run drives 2-10 scrapes (plus complete sweeps over every break offset of a small payload) through a real net/http server serving the real Proxy over net.Pipe connections to a real http.Client configured with the proxy URL, all inside one synctest bubble; per scrape a drawn target (assigned normal / assigned in_transfer / unassigned), payload, gzip, chunking and failure stage (connect, non-200 status, timeout on the fake clock, body break at a drawn offset, corrupted gzip stream, administratively stopped); a case is (failure stage class) x (assigned?) x gzip",
 		Real: append([]string{"net/http server and client over net.Pipe"}, realNode...), Stub: stubNode,
+		SchedLabels: []string{"op", "scrape_outcome", "fail_kind", "fail_offset", "update_mode", "prom_reload_fails", "overlap_flip", "kind", "break_offset", "timeout_offset", "chunking", "short_writes", "chunk", "cut_point", "child_cut_point", "config_change", "op_is_config"},
 		Assume: []string{"the Prometheus-side client waits longer (15 s) than the job's scrape_timeout (10 s), so a time-out is the proxy's verdict, not the client's"},
 	})
 	core.Register(&core.Spec{
@@ -55,6 +58,7 @@ func init() {
 		QuickRuns: 6000, ThorRuns: 300000, QuickCap: 60 * time.Second, ThorCap: 12 * time.Minute,
 		Rule: "a run is a drawn sequence of 4-40 operations on one real sidecar, mostly scrapes through the real proxy of payloads built from a drawn list of (metric name, label set) samples (so total and kept counts under the job's metric relabel rules are known by construction; kept = Prometheus' own relabel.Process per sample), with failures, several targets and jobs, updates and restarts; after every operation /status/, /runtimeinfo/ and /samples/?with_metrics_detail are compared with the model (series = floor(mean of last <=3 successful kept counts), total = last success, process = sum of totals, head = max(prometheus head, sum of series)); a case is (operation kinds mixed) x (final entry classes) x idle?",
 		Real: realNode, Stub: stubNode,
+		SchedLabels: []string{"op", "scrape_outcome", "fail_kind", "fail_offset", "update_mode", "prom_reload_fails", "overlap_flip", "kind", "break_offset", "timeout_offset", "chunking", "short_writes", "chunk", "cut_point", "child_cut_point", "config_change", "op_is_config"},
 		Assume: []string{"after a failed scrape the per-scrape statistics of that target are unspecified and not compared"},
 	})
 	core.Register(&core.Spec{
@@ -63,6 +67,7 @@ func init() {
 		QuickRuns: 6000, ThorRuns: 300000, QuickCap: 60 * time.Second, ThorCap: 12 * time.Minute,
 		Rule: "a run is a drawn sequence of 3-30 operations on one real sidecar (target updates over 6 hashes x 3 jobs with adds/removals/state flips/repeats/empty/job moves, scrapes with drawn outcome through the real proxy, restarts from the store directory, fake-clock advances) with the real GET status / runtimeinfo answers compared with a reference model after every operation; a case is (set of operation kinds mixed) x (multiset of final entry classes state/health/scrape-class) x idle?; trivial = fewer than two kinds of operation",
 		Real: realNode, Stub: stubNode,
+		SchedLabels: []string{"op", "scrape_outcome", "fail_kind", "fail_offset", "update_mode", "prom_reload_fails", "overlap_flip", "kind", "break_offset", "timeout_offset", "chunking", "short_writes", "chunk", "cut_point", "child_cut_point", "config_change", "op_is_config"},
 		Assume: []string{"a request never names one hash twice with different states (order of two states for one hash in one request is left open by the statement)"},
 	})
 }
